@@ -1,13 +1,18 @@
 ID = "C19"
 PROP = {
-    "proof_modules": ["GrolProofs.Props.C19"],
+    "proof_modules": ["GrolProofs.Props.C19", "GrolProofs.Props.C19Full", "GrolProofs.ConstInvBase", "GrolProofs.ConstInvVal",
+                      "GrolProofs.ConstInvEnv", "GrolProofs.ConstInvOps", "GrolProofs.ConstInvHelpers", "GrolProofs.ConstInvMain"],
     "theorems": ["Grol.E.createOrSet_constant_refused", "Grol.E.createOrSet_constant_reads_only_before_check",
                  "Grol.E.envGet_sameValues", "Grol.E.makeRef_sameValues", "Grol.E.makeRef_go_sameValues",
                  "Grol.E.sameValues_setFrame", "Grol.E.lookupStore_setStore_ne", "Grol.E.lookupStore_setStore_eq",
                  "Grol.E.lookupStore_delStore_ne", "Grol.E.readOnly_valueOf",
                  "Grol.E.evalPrefixIncrDecr_writes_via_set", "Grol.E.evalPostfix_writes_via_set",
                  "Grol.E.evalIndexAssignment_writes_via_set", "Grol.E.deleteMapEntry_writes_via_set",
-                 "Grol.E.C19.final_set_refused"],
+                 "Grol.E.C19.final_set_refused",
+                 "Grol.C19.kept", "Grol.C19.inv_preserved", "Grol.C19.inv_init", "Grol.C19.result_ok", "Grol.C19.runInput_spec",
+                 "Grol.C19.session_kept", "Grol.C19.read_bound", "Grol.C19.read_kept", "Grol.C19.session_read",
+                 "Grol.C19.kept_acc", "Grol.C19.kept_rigid", "Grol.C19.eqv_rigid", "Grol.K.spec_all",
+                 "Grol.K.post_createOrSet", "Grol.K.post_setNoChecks", "Grol.K.post_envGet", "Grol.K.post_makeRef"],
     "suites": ["consts"],
     "rule": "consts suite: a case is a session run by the real interpreter under 4 configurations (cache on/off x registers on/off) and by the Lean "
             "evaluator model (cache on/off): input 0 binds a constant (names FOO, AB_1, Z9, K) to a value of one of 11 kinds (int, float, bool, string, nil, "
